@@ -149,7 +149,7 @@ var initProblems []string
 
 // packages whose initializers are never run (their functions are modelled natively or unused)
 var noInitPkgs = map[string]bool{
-	"errors": true, "runtime": true, "os": true, "syscall": true, "time": true, "net": true, "reflect": true,
+	"errors": true, "runtime": true, "os": true, "syscall": true, "net": true, "reflect": true,
 	"internal/reflectlite": true, "sync": true, "sync/atomic": true, "internal/cpu": true,
 	"internal/poll": true, "internal/godebug": true, "crypto/tls": true, "net/http": true, "log": true,
 	"fmt": true, "crypto/md5": true, "crypto/sha256": true, "crypto": true, "math/rand": true,
